@@ -157,7 +157,8 @@ def main():
         sh(["git", "checkout", "--", "."], cwd=wt)
         # failures of mutants are not findings: remove the replay files they produced
         for f in set(os.listdir(rdir)) - before:
-            os.remove(os.path.join(rdir, f))
+            if f.startswith("C18-") or f.startswith("C19-"):  # never touch other properties' files
+                os.remove(os.path.join(rdir, f))
         rows.append((mid, desc, caught))
         print("%-38s %-70s -> %s" % (mid, desc, ", ".join(caught) or "NOT CAUGHT"), flush=True)
         for d in detail:
